@@ -156,6 +156,14 @@ def _ob_gridfunction(mesh, space_spec, what):
                     for k in range(dim):
                         want[k, vtx] = want[k, vtx] / area[vtx]
     bad = _cmp(got, want, "GridFunction.%s on %s %s%d" % (what, mesh, space_spec[0], space_spec[1]), "gridfunction/%s/%s%d" % (what, space_spec[0], space_spec[1]))
+    if bad and bad.get("status") == "violated" and what != "evaluate":
+        # replay the refuted contract natively (floats, real quadrature rule) on the octahedron: the same helper against direct quadrature of gf.evaluate
+        key = {"integrate": "integrate", "centers": "evaluate_on_element_centers", "vertices": "evaluate_on_vertices"}[what]
+        rp = replay_gridfunction_numeric("octa")
+        mine = [p_ for p_ in rp["problems"] if p_.startswith(key) and ("%s%d" % (space_spec[0], space_spec[1])) in p_]
+        if mine:
+            bad["replay"] = {"callable": "checks.c13:replay_gridfunction_numeric", "kwargs": {"gridname": "octa"}, "confirmed": True, "result": {"problems": mine[:4]}}
+            bad["detail"] += "; native replay on the octahedron: %s" % mine[:2]
     return bad or proved("sym-exec+normal-form", "%s values" % (np.asarray(want).size,))
 
 
@@ -450,7 +458,7 @@ def replay_gridfunction_numeric(gridname):
     rng = np.random.RandomState(2)
     doms = sorted(set(int(d) for d in g.domain_indices))
     problems, worst = [], 0.0
-    specs = [("DP", 0, {}), ("DP", 1, {}), ("P", 1, {}), ("RWG", 0, {}), ("DP", 0, {"segments": [doms[1]]}), ("DP", 1, {"segments": [doms[1]]}),
+    specs = [("DP", 0, {}), ("DP", 1, {}), ("P", 1, {}), ("RWG", 0, {}), ("SNC", 0, {}), ("DP", 0, {"segments": [doms[1]]}), ("DP", 1, {"segments": [doms[1]]}),
              ("P", 1, {"segments": [doms[1]], "include_boundary_dofs": True}), ("RWG", 0, {"segments": [doms[1]], "include_boundary_dofs": True})]
     corners = np.array([[0.0, 1.0, 0.0], [0.0, 0.0, 1.0]])
     cen = np.array([[1.0 / 3], [1.0 / 3]])
